@@ -520,9 +520,9 @@ class PoolSuite(PipeSuite):
     def gens(self, tier, seed, sspec):
         s = str(seed)
         if tier == "thorough":
-            return [("widths 2..16 x {user pool = width, user pool 16, default pool, batch-inner, async, called from a worker of a foreign pool, default pool shared with a narrow batch, user pool attached after the batch was registered, async dispatch+wait called from a worker of a foreign pool, async dispatch twice then wait, default pool driven from a worker of a foreign pool (sync and async), a batch that also holds a nested batch, a stage two batches deep (user pool on the outermost builder only), a batch under an outer dispatch_seq, after a panic caught in a sequential dispatch, the sendable form driven through RunNow} x 25 dispatches", ["--gen", "all", "--count", "25", "--seed", s], {"shards": 2})]
+            return [("widths 2..16 x {user pool = width, user pool 16, default pool, batch-inner, async, called from a worker of a foreign pool, default pool shared with a narrow batch, user pool attached after the batch was registered, async dispatch+wait called from a worker of a foreign pool, async dispatch twice then wait, default pool driven from a worker of a foreign pool (sync and async), a batch that also holds a nested batch, a stage two batches deep (user pool on the outermost builder only), a batch under an outer dispatch_seq, after a panic caught in a sequential dispatch, the sendable form driven through RunNow, two async dispatchers on one pool} x 25 dispatches", ["--gen", "all", "--count", "25", "--seed", s], {"shards": 2})]
         if tier == "quick":
-            return [("widths 2..16 x {user pool = width, user pool 16, default pool, batch-inner, async, called from a worker of a foreign pool, default pool shared with a narrow batch, user pool attached after the batch was registered, async dispatch+wait called from a worker of a foreign pool, async dispatch twice then wait, default pool driven from a worker of a foreign pool (sync and async), a batch that also holds a nested batch, a stage two batches deep (user pool on the outermost builder only), a batch under an outer dispatch_seq, after a panic caught in a sequential dispatch, the sendable form driven through RunNow} x 3 dispatches", ["--gen", "all", "--count", "3", "--seed", s], {"shards": 2})]
+            return [("widths 2..16 x {user pool = width, user pool 16, default pool, batch-inner, async, called from a worker of a foreign pool, default pool shared with a narrow batch, user pool attached after the batch was registered, async dispatch+wait called from a worker of a foreign pool, async dispatch twice then wait, default pool driven from a worker of a foreign pool (sync and async), a batch that also holds a nested batch, a stage two batches deep (user pool on the outermost builder only), a batch under an outer dispatch_seq, after a panic caught in a sequential dispatch, the sendable form driven through RunNow, two async dispatchers on one pool} x 3 dispatches", ["--gen", "all", "--count", "3", "--seed", s], {"shards": 2})]
         return [("search: widths 2,3,5 x all configurations x 6 dispatches", ["--gen", "small", "--count", "6", "--seed", s], {"shards": 2})]
 
 
